@@ -18,6 +18,7 @@ import (
 	"fmt"
 	"go/ast"
 	"go/parser"
+	"strconv"
 	"go/token"
 	"go/types"
 	"regexp"
@@ -65,6 +66,7 @@ type callPattern struct {
 	iface    *types.Interface
 	dynamic  bool // call of a function value (field or variable of func type)
 	returns      bool // `returns()`: pseudo-event recorded at every return statement of the function under contract
+	loopOrd      int  // `loop_continues(N)`: only the N-th loop of the function (source order, from 0); -1: any loop
 	loopContinue bool // `loop_continues()`: pseudo-event recorded at every back edge of the function under contract
 	passing  bool // `call passing T($x)`: any call (static, interface or dynamic) with an argument of static type T
 	elemOf   bool // each(X)(args): call of a function value that is an element of the slice X
@@ -238,9 +240,17 @@ func parseEffect(ec *EffectClause, text string) error {
 func parsePattern(s string) (*callPattern, error) {
 	p := &callPattern{src: s}
 	s = strings.ReplaceAll(s, "$", "cap_")
-	if t := strings.TrimSpace(s); t == "loop_continues()" {
-		// pseudo-call: the enclosing loop of the function under contract proceeds to its next iteration
+	if t := strings.TrimSpace(s); strings.HasPrefix(t, "loop_continues(") && strings.HasSuffix(t, ")") {
+		// pseudo-call: a loop (the N-th, when given) of the function under contract proceeds to its next iteration
 		p.loopContinue = true
+		p.loopOrd = -1
+		if in := strings.TrimSpace(t[len("loop_continues(") : len(t)-1]); in != "" {
+			n, err := strconv.Atoi(in)
+			if err != nil {
+				return nil, fmt.Errorf("pattern %q: loop_continues takes a loop ordinal", s)
+			}
+			p.loopOrd = n
+		}
 		p.recvSrc = "_"
 		return p, nil
 	}
@@ -863,7 +873,7 @@ func (e *Engine) matchPattern(sp *ssa.Package, p *callPattern, ev Event, prov0 f
 		return nil, false
 	}
 	if p.loopContinue {
-		if ev.Callee == "<loop-continues>" {
+		if ev.Callee == "<loop-continues>" && (p.loopOrd < 0 || p.loopOrd == ev.LoopOrd) {
 			return mi, true
 		}
 		return nil, false
